@@ -81,28 +81,31 @@ def dispatch (info : PkgInfo) (conv : Conv) (outcome : Call → Int) : (fuel : N
             let r := dispatch info conv outcome fuel (rest.drop f.args.length)
             ⟨call :: r.calls, r.status, r.stop⟩
 
-/-- `lowerFirstWord` (ASCII): `(Aaaa)(Bbbb) → aaaaBbbb`, `(AAAA)(Bbbb) → aaaaBbbb`, else all lower -/
-def lowerFirstWord (s : String) : String :=
-  let cs := s.toList
+/-- `lowerFirstWord` (ASCII) on characters: `(Aaaa)(Bbbb) → aaaaBbbb`, `(AAAA)(Bbbb) → aaaaBbbb`, else all lower -/
+def lowerFirstWordL (cs : List Char) : List Char :=
   match cs with
-  | [] => ""
+  | [] => []
   | c :: rest =>
-    if !c.isUpper then lower s
+    if !c.isUpper then cs.map Char.toLower
     else
       -- first regexp: one upper, then at least one non-upper, then an upper
       let nonUp := rest.takeWhile (fun x => !x.isUpper)
       let after := rest.dropWhile (fun x => !x.isUpper)
       if !nonUp.isEmpty && !after.isEmpty then
-        String.ofList ((c :: nonUp).map Char.toLower ++ after)
+        (c :: nonUp).map Char.toLower ++ after
       else
         -- second regexp: a run of uppers, the last of which starts a word followed by a non-upper
         let ups := cs.takeWhile Char.isUpper
         let tail := cs.dropWhile Char.isUpper
         if ups.length ≥ 2 && !tail.isEmpty then
-          String.ofList ((ups.dropLast).map Char.toLower ++ [ups.getLast!] ++ tail)
-        else lower s
+          (ups.dropLast).map Char.toLower ++ (ups.drop (ups.length - 1)) ++ tail
+        else cs.map Char.toLower
 
-def lowerFirst (s : String) : String := ":".intercalate ((s.splitOn ":").map lowerFirstWord)
+def lowerFirstWord (s : String) : String := String.ofList (lowerFirstWordL s.toList)
+
+/-- the template function `lowerFirst`: `lowerFirstWord` on every `:`-separated part -/
+def lowerFirst (s : String) : String :=
+  String.ofList ([':'].intercalate ((s.toList.splitOn ':').map lowerFirstWordL))
 
 /-- names printed by `-l`, sorted, the default one starred -/
 def listing (info : PkgInfo) : List String :=
